@@ -4,7 +4,8 @@
    environment of the use site the sort that the body has in that environment
    extended by the formals.  The side condition is inline_side of
    Proofs/Rw/InlineSide.v with type_pos_only (Proofs/Rw/LetSort.v) in the place
-   of term_pos_only; the mutator does not check it (finding F19). *)
+   of term_pos_only; the mutator checks (after the fix of finding F19) only the
+   part inline_guard of it, see Proofs/Rw/InlineGuard.v. *)
 From DD Require Import Spec.Semantics Spec.Typing Model.Rewrites Model.LetRw Model.InlineRw.
 From DD Require Import Proofs.Rw.EvalBase Proofs.Rw.TypeBase Proofs.Rw.LetSide Proofs.Rw.LetSubst.
 From DD Require Import Proofs.Rw.InlineSide Proofs.Rw.InlineSubst Proofs.Rw.LetSort.
@@ -105,6 +106,7 @@ Proof.
       { unfold inline_side_ty in Hside. cbv zeta in Hside. apply andb_true_iff in Hside as [Hside _].
         apply andb_true_iff in Hside as [Hside _]. now apply andb_true_iff in Hside as [Hside _]. }
       rewrite (instantiate_app d (L n) args Hok Elen) in HR.
+      destruct (inline_guard d args); [rewrite sexp_eqb_refl in HR; injection HR as <-; destruct Hin|].
       destruct (sexp_eqb _ _) in HR; injection HR as <-; [destruct Hin|].
       destruct Hin as [<- | []]. now apply (inline_beta_sort d args g sorts so).
     + unfold instantiate in HR. rewrite Elen, sexp_eqb_refl in HR. injection HR as <-. destruct Hin.
